@@ -25,6 +25,8 @@ func main() {
 		os.Exit(cmdEvalGoto(os.Args[2:]))
 	case "evalcolor":
 		os.Exit(cmdEvalColor(os.Args[2:]))
+	case "evallookup":
+		os.Exit(cmdEvalLookup(os.Args[2:]))
 	case "dump":
 		os.Exit(cmdDump(os.Args[2:]))
 	case "replay":
